@@ -54,7 +54,8 @@ def conformance_listing_order():
                 h.create_carray('/', n, obj=np.zeros(1))
         with tables.open_file(fn) as h:
             got = [k.name for k in h.list_nodes('/')]
-        return got == sorted(names), got
+            got2 = [k.name for k in h.iter_nodes('/')]
+        return got == sorted(names) and got2 == sorted(names), got
     finally:
         import shutil
         shutil.rmtree(d, ignore_errors=True)
